@@ -1005,6 +1005,13 @@ class MiniInterp:
                         "pop", "clear", "issuperset"):
                 return T("iset", obj, attr)
             raise Unknown(f"set method {attr}")
+        if isinstance(obj, T) and obj[0] == "builtin" and obj[1] in ("str", "list", "dict", "tuple", "bytes", "set", "frozenset"):
+            # unbound method of a builtin type (map(str.rstrip, xs), sorted(key=str.lower))
+            def unbound(a, k, attr=attr):
+                if not a:
+                    raise PyRaise("TypeError", node)
+                return self.dispatch_marker(self.getattr(a[0], attr, fi, node), list(a[1:]), dict(k), node)
+            return PyFn(f"{obj[1]}.{attr}", unbound)
         if isinstance(obj, BoundFunc) and attr in ("__name__", "__qualname__"):
             return obj.fi.name
         if isinstance(obj, Closure) and attr == "__name__":
@@ -1061,6 +1068,8 @@ class MiniInterp:
         for k in n.keywords:
             if k.arg is None:
                 d = self.ev(k.value, env, fi)
+                if isinstance(d, Sym) and d.cls is not None and d.cls.find_method("keys") is None:
+                    raise PyRaise("TypeError", n)       # argument after ** must be a mapping
                 if not isinstance(d, dict) or not all(isinstance(x, str) for x in d):
                     raise Unknown("** of a non-dictionary")
                 kwargs.update(d)
@@ -1580,11 +1589,16 @@ class MiniInterp:
                         e2[p] = self.ev(defaults[p], f.env, f.fi)
                     else:
                         raise Unknown(f"missing argument {p}")
+            is_gen = any(isinstance(x, (ast.Yield, ast.YieldFrom)) for st in f.node.body for x in ast.walk(st)
+                         if not isinstance(st, (ast.FunctionDef, ast.ClassDef)))
+            if is_gen:
+                e2["__yield__"] = []
             try:
                 self.block(f.node.body, e2, sub)
             except _Ret as r:
-                return r.v
-            return None
+                if not is_gen:
+                    return r.v
+            return _Iter(e2["__yield__"]) if is_gen else None
         return NotImplemented
 
     def apply(self, f, args):
